@@ -91,17 +91,45 @@ package hashprefix
 //@   modifies nothing
 //@ func (*Filter).updateCacheSizeMetrics
 //@   modifies nothing
+//@ import dnsmsg github.com/AdguardTeam/AdGuardDNS/internal/dnsmsg
+// A blocked answer is built by the message constructor of the request it
+// answers (its profile's blocking mode and filtered-response TTL).
+// This package's view of NewRespRCode: the reply is built by the constructor it is called on.
+//@ func (*dnsmsg.Constructor).NewRespRCode
+//@   modifies blockedBy
+//@   ensures resp != nil && fresh(resp) && resp.Rcode == rc && blockedBy[resp] == c
+//@   ensures forall m *dns.Msg :: m != resp ==> blockedBy[m] == old(blockedBy[m])
+// reqOK: a filtering request with its message and a usable constructor.
+//@ pred reqOK(req *internal.Request) = req != nil && req.Messages != nil && CV(req.Messages) && knownMode(req.Messages) && req.DNS != nil && len(req.DNS.Question) >= 1
+//@ func (*Filter).respForFamily
+//@   property C02 C12
+//@   requires f != nil && reqOK(req)
+//@   modifies heap, blockedBy
+//@   preserves internal.Request.*, internal.ResultModifiedResponse.*, internal.ResultModifiedRequest.*
+//@   ensures err == nil ==> resp != nil && blockedBy[resp] == req.Messages
+//@ func (*Filter).modifiedResponse
+//@   property C12 C02
+//@   requires f != nil && reqOK(req)
+//@   modifies heap, blockedBy
+//@   preserves internal.Request.*, internal.ResultModifiedResponse.*, internal.ResultModifiedRequest.*
+//@   ensures built-by-the-requesters-own-constructor: err == nil ==> isptr(r, internal.ResultModifiedResponse) && ref(r) != 0 && fresh(ref(r)) &&
+//@             asptr(r, internal.ResultModifiedResponse).Msg != nil && blockedBy[asptr(r, internal.ResultModifiedResponse).Msg] == req.Messages
+//@   ensures err != nil ==> r == nil
 //@ func (*Filter).filteredResult
-//@   modifies heap
+//@   modifies heap, blockedBy
+//@   preserves internal.Request.*, internal.ResultModifiedResponse.*, internal.ResultModifiedRequest.*
 //@   ensures err == nil ==> isptr(r, internal.ResultModifiedRequest) || isptr(r, internal.ResultModifiedResponse)
 //@   ensures err == nil ==> ref(r) != 0
+//@   ensures err == nil && isptr(r, internal.ResultModifiedResponse) ==> asptr(r, internal.ResultModifiedResponse).Msg != nil && blockedBy[asptr(r, internal.ResultModifiedResponse).Msg] == req.Messages
 // C07: a cached verdict and the verdict handed to a client never share a
 // message: the cache stores a clone, a hit returns a clone.
 //@ func (*internal.ResultModifiedRequest).Clone
 //@   modifies heap
+//@   preserves internal.Request.*, internal.ResultModifiedResponse.*, internal.ResultModifiedRequest.*
 //@   ensures clone != nil && clone != m
 //@ func (*internal.ResultModifiedResponse).Clone
 //@   modifies heap
+//@   preserves internal.Request.*, internal.ResultModifiedResponse.*, internal.ResultModifiedRequest.*
 //@   ensures clone != nil && clone != m
 // builtFor[x]: the request a rewritten response was made a reply to
 // (CloneForReq sets the reply's ID, question and header bits from it).
@@ -114,14 +142,17 @@ package hashprefix
 // requester's, not those of whoever filled the cache (C12: the cache is
 // invisible).
 //@ func (*Filter).clonedResult
-//@   property C07 C12
-//@   requires f != nil && okRes(r) && (isptr(r, internal.ResultModifiedRequest) ==> f.cloner != nil && req != nil && len(req.Question) >= 1)
+//@   property C07 C12 C02
+//@   requires f != nil && reqOK(req) && okRes(r) && (isptr(r, internal.ResultModifiedRequest) ==> f.cloner != nil)
 // (cached messages are never written: a cached rewritten request still has the question it was stored with)
 //@   atcall CloneForReq assume a-cached-rewritten-request-keeps-its-question: isptr(r, internal.ResultModifiedRequest) ==> asptr(r, internal.ResultModifiedRequest).Msg != nil && len(asptr(r, internal.ResultModifiedRequest).Msg.Question) >= 1
-//@   modifies heap, builtFor
-//@   ensures the-client-gets-its-own-copy: r == nil ? clone == nil : ref(clone) != 0 && ref(clone) != ref(r)
-//@   ensures a-cached-answer-is-rebuilt-for-this-request: isptr(r, internal.ResultModifiedResponse) ==> builtFor[ref(clone)] == req
-//@   ensures a-cached-rewritten-request-is-rebuilt-from-this-request: isptr(r, internal.ResultModifiedRequest) ==> isptr(clone, internal.ResultModifiedRequest) && builtFor[asptr(clone, internal.ResultModifiedRequest).Msg] == req
+//@   modifies heap, builtFor, blockedBy
+//@   preserves internal.Request.*, internal.ResultModifiedResponse.*, internal.ResultModifiedRequest.*
+//@   ensures the-client-gets-its-own-copy: err == nil ==> (r == nil ? clone == nil : ref(clone) != 0 && ref(clone) != ref(r))
+//@   ensures a-cached-rewritten-request-is-rebuilt-from-this-request: isptr(r, internal.ResultModifiedRequest) ==> err == nil && isptr(clone, internal.ResultModifiedRequest) && builtFor[asptr(clone, internal.ResultModifiedRequest).Msg] == req.DNS
+//@   ensures a-cached-blocked-answer-is-rebuilt-by-the-requesters-own-constructor: isptr(r, internal.ResultModifiedResponse) && err == nil ==>
+//@             isptr(clone, internal.ResultModifiedResponse) && blockedBy[asptr(clone, internal.ResultModifiedResponse).Msg] == req.Messages
+//@   ensures err != nil ==> clone == nil
 
 //@ func (*Filter).itemFromCache
 //@   property C12
@@ -137,6 +168,7 @@ package hashprefix
 //@   held *
 //@   requires f != nil && ref(f.resCache) != 0 && HPI(f) && (isptr(r, internal.ResultModifiedRequest) || isptr(r, internal.ResultModifiedResponse)) && ref(r) != 0
 //@   modifies heap, achas[f.resCache], acval[f.resCache], itemVer
+//@   preserves internal.Request.*, internal.ResultModifiedResponse.*, internal.ResultModifiedRequest.*
 //@   atcall Set set itemVer[arg2] = hsVer[f.hashes]
 //@   ensures HPI(f)
 
@@ -152,12 +184,16 @@ package hashprefix
 //@ func (*Filter).FilterRequest
 //@   property C12 C11
 //@   requires f != nil && f.resCacheMu != nil && f.logger != nil && f.hashes != nil && ref(f.resCache) != 0 && req != nil && SI(f.hashes) &&
-//@            f.cloner != nil && req.DNS != nil && len(req.DNS.Question) >= 1
-//@   modifies heap, cgetCache, cgetKey, hst, ipBytes, achas, acval, itemVer, cacheVer, lastVerdictVer, builtFor, ptrLoads, cacheServes
+//@            f.cloner != nil && reqOK(req)
+//@   modifies heap, cgetCache, cgetKey, hst, ipBytes, achas, acval, itemVer, cacheVer, lastVerdictVer, builtFor, ptrLoads, cacheServes, blockedBy
 //@   atcall clonedResult set cacheServes = cacheServes + 1
 //@   ensures sound-for-hosts: cacheServes == old(cacheServes) && r != nil ==> (old(req.QType) == 1 || old(req.QType) == 28 || old(req.QType) == 65) && (exists j int :: 0 <= j && j < hsubsLen(old(req.Host)) && listedNow(f.hashes, hsubsAt(old(req.Host), j)))
 //@   ensures complete-for-hosts: cacheServes == old(cacheServes) && r == nil && err == nil && (old(req.QType) == 1 || old(req.QType) == 28 || old(req.QType) == 65) ==> (forall j int :: 0 <= j && j < hsubsLen(old(req.Host)) ==> !listedNow(f.hashes, hsubsAt(old(req.Host), j))) || (exists j int :: 0 <= j && j < hsubsLen(old(req.Host)) && hsubsAt(old(req.Host), j) == "" && listedNow(f.hashes, hsubsAt(old(req.Host), j)))
 //@   ensures other-types-pass: cacheServes == old(cacheServes) && !(old(req.QType) == 1 || old(req.QType) == 28 || old(req.QType) == 65) ==> r == nil && err == nil
+// C12/C02: with or without the result cache, a blocked answer is the one the
+// requester's own settings produce - built by the requester's constructor
+// (blocking mode, filtered-response TTL), whoever filled the cache.
+//@   ensures a-blocked-answer-is-built-by-the-requesters-own-constructor: err == nil && isptr(r, internal.ResultModifiedResponse) ==> blockedBy[asptr(r, internal.ResultModifiedResponse).Msg] == old(req.Messages)
 //@   atcall clonedResult set lastVerdictVer = itemVer[item]
 //@   atcall Matches set lastVerdictVer = hsVer[f.hashes]
 //@   atcall Set set itemVer[arg2] = hsVer[f.hashes]
